@@ -1,5 +1,5 @@
 (* Properties_C09.v — a confirmed name is defended against later probers (hostnames proved; service names refuted). *)
-From QV Require Import Base Fields SrcFacts Msg SrcDecisions Sim Prober Hostname HostnameProofs Provider ProviderSpec ProviderProofs.
+From QV Require Import Base Fields SrcFacts Msg SrcDecisions Sim Prober Hostname HostnameProofs HostNet Provider ProviderSpec ProviderProofs.
 Local Open Scope Z_scope.
 
 (* One defence round, for every interface table and source address on a local subnet: a REGISTERED hostname object that
@@ -18,6 +18,43 @@ Theorem C09_hostname_defence_round now now' h1 h2 src :
     (h_suffix h2 + 1 <= h_suffix (fst (host_handle now' h2 (EvMsg reply))))%N.
 Proof. exact (defence_round now now' h1 h2 src). Qed.
 Print Assumptions C09_hostname_defence_round.
+
+(* ---- over whole schedules ----
+   Two hostname objects on a link without loss and without delay (a packet in flight is delivered before any timer
+   fires), each seeing the other's packets from a fixed source address.  The incumbent A is registered under n, has an
+   address of one of the two families on the subnet of the newcomer's source address (the C17 condition for answering at
+   all), and runs no timer - it stays registered; the excluded case, A re-asserting its name, is the open finding
+   dup-hostname:incumbent-reprobing.  The newcomer B does anything: probes, conflicts, registrations, 30-minute
+   re-assertions, in any order and number.  [Inv n]: whenever B holds the candidate n unregistered, its probe for n is on
+   its way to A or A's conflicting answer is on its way back.  It is preserved by every step (C09_network_step), hence in
+   every reachable state B is registered only under names other than A's. *)
+Theorem C09_network_step srcA srcB n s s' : Inv srcB n s -> nstep srcA srcB s s' -> Inv srcB n s'.
+Proof. exact (nstep_inv srcA srcB n s s'). Qed.
+Print Assumptions C09_network_step.
+
+Theorem C09_incumbent_keeps_its_hostname srcA srcB n s0 s :
+  Inv srcB n s0 -> nreach srcA srcB s0 s -> h_reg (nB s) = true -> h_name (nB s) <> h_name (nA s).
+Proof. exact (incumbent_keeps_its_name srcA srcB n s0 s). Qed.
+Print Assumptions C09_incumbent_keeps_its_hostname.
+
+(* non-vacuity: A registered as "h.local." with 192.168.1.10/24; B, same host name, just created at 192.168.1.20 with its
+   first probe in flight: the invariant holds, and after the exchange B probes "h-2.local." *)
+Example C09_network_example :
+  let ifsA := [[(A4 3232235786, 24)]] in
+  let hA := mkHost [104]%N ifsA [104; 46; 108; 111; 99; 97; 108; 46]%N [] true 1 in
+  let hB := fst (on_rebroadcast (mkHost [104]%N [] [] [] false 1)) in
+  let srcA := A4 3232235786 in let srcB := A4 3232235796 in
+  let n := [104; 46; 108; 111; 99; 97; 108; 46]%N in
+  let s0 := mkNet hA hB [host_probe n srcB] [] in
+  Inv srcB n s0 /\
+  exists s1 s2, nstep srcA srcB s0 s1 /\ nstep srcA srcB s1 s2 /\
+                h_name (nB s2) = [104; 45; 50; 46; 108; 111; 99; 97; 108; 46]%N /\ toB s2 = [].
+Proof.
+  cbv zeta. split.
+  - split; [reflexivity|]. split; [reflexivity|]. split; [left; vm_compute; discriminate|]. split; [intro X; discriminate|].
+    intros _ _. left. eexists. split; [left; reflexivity|reflexivity].
+  - eexists _, _. split; [eapply (ns_A _ _ 0); reflexivity|]. split; [eapply (ns_B _ _ 0); vm_compute; reflexivity|]. vm_compute. auto.
+Qed.
 
 (* The service-name half of the property is FALSE of the faithful model (and of the code): a confirmed provider does
    not answer the ANY question with which a prober probes the instance name it serves. *)
